@@ -242,6 +242,9 @@ def hasDelim : List Char → Bool
   | _ :: rest => hasDelim rest
   | [] => false
 
+/-- syntactic sufficient condition for a key to survive the split: no `:` in the method, no `:::` in the URL -/
+def cleanKey (k : Key) : Bool := k.1.toList.all (· != ':') && !hasDelim k.2.toList
+
 def hasDelimKey (recs : List Rec) : Bool :=
   (external recs).any fun r => hasDelim r.url.toList || hasDelim r.method.toList || r.method.toList.getLast? = some ':'
 
@@ -262,6 +265,28 @@ def deepFanout (thr : Nat) (urls : List String) : Bool :=
       decide (1 ≤ i) &&
       (let under := us.filter fun v => v.take i == u.take i && decide (i < v.length)
        decide (thr < (dedupL (under.filterMap (·[i]?))).length) && under.any fun v => decide (i + 2 ≤ v.length))
+
+/-- What an observer reconstructs from a state file: its content read back, times in whole seconds;
+    entries merged per method (URL replaced by `*`) when the run contained a restart. -/
+def observe (full : Bool) (fails : Nat) (p : Persisted) : RunObs :=
+  let A := restore p
+  let eps : EMap := A.endpoints.map fun e => (e.1, toSec e.2)
+  let ces : CMap := A.consumers.map fun e => (e.1, toSec e.2)
+  { full := full, nondet := false, fails := fails
+    eps := if full then eps else rekeyAny (fun k : Key => (k.1, "*")) eps
+    ces := if full then ces else rekeyAny (fun k : CKey => (k.1, (k.2.1, "*"))) ces
+    its := A.interceptors.map fun e => (e.1, e.2 / 1000)
+    avgOk := true }
+
+/-- number of batches `Run` rejected during a run -/
+def failCount {τ : Type} (N : Normaliser τ) (T0 : τ) : St τ → List Seg → Nat
+  | _, [] => 0
+  | s, Seg.batch rs :: rest => (if stepFails N s.tree rs then 1 else 0) + failCount N T0 (stepS N s rs) rest
+  | s, Seg.restart :: rest => failCount N T0 { tree := T0, agg := restore s.file, file := s.file } rest
+
+/-- the observation of a whole model run -/
+def observeRun {τ : Type} (N : Normaliser τ) (T0 : τ) (full : Bool) (segs : List Seg) : RunObs :=
+  observe full (failCount N T0 (St.init T0) segs) (runSegs N T0 (St.init T0) segs).file
 
 /-- The whole property on one case. -/
 def holds (c : CaseObs) : Bool :=
